@@ -27,7 +27,7 @@ fn n_lines(b: &[u8]) -> u32 { 1 + b.iter().filter(|c| **c == b'\n').count() as u
 // Expectation: "any" (accept or reject cleanly), "reject" (must be a front-end
 // rejection), "read_error" (not UTF-8), with an optional minimum line.
 pub fn front_contract(src: &[u8], expect: &str, min_line: u32, classify_inproc: bool) -> Result<&'static str, String> {
-    let quick = CliOpts{timeout: std::time::Duration::from_secs(3), patient: false, ..CliOpts::default()};
+    let quick = CliOpts{timeout: std::time::Duration::from_secs(3), patient: false, mem_limit: true, ..CliOpts::default()};
     let mut o = run_cli_opts(src, &quick);
     if o.status == Status::Timeout {
         // An accepted program may simply not terminate (a mutation can turn a
@@ -40,7 +40,7 @@ pub fn front_contract(src: &[u8], expect: &str, min_line: u32, classify_inproc: 
         } else if std::str::from_utf8(src).is_ok() {
             return Ok("undecided without the in-process front end");
         }
-        o = run_cli_opts(src, &CliOpts{timeout: std::time::Duration::from_secs(30), patient: false, ..CliOpts::default()});
+        o = run_cli_opts(src, &CliOpts{timeout: std::time::Duration::from_secs(30), patient: false, mem_limit: true, ..CliOpts::default()});
         if o.status == Status::Timeout {
             return Err("no termination within the time limit while scanning / parsing".to_string());
         }
